@@ -17,7 +17,7 @@ class C12(Prop):
     id = "C12"
     title = "Buffered commands are served fairly: one per user per cycle, nobody starves"
     lean_modules = ["NV.C12.Props", "NV.C12.Witness", "NV.C12.Trace", "NV.C12.Fifo3", "NV.C12.Fifo5", "NV.C12.Neg", "NV.C12.Flag",
-                    "NV.C12.Lemmas4"]
+                    "NV.C12.Lemmas4", "NV.C12.Live4"]
     lean_modules_ = None
     theorems = [
         "NV.C12.flag_bits",
@@ -79,6 +79,22 @@ class C12(Prop):
         "NV.C12.efun_run",
         "NV.C12.G_cycleRun",
         "NV.C12.cmdLoop_thrown_false",
+        "NV.C12.judgeLive_events",
+        "NV.C12.judgeEv_events_eq_order",
+        "NV.C12.B_cycle",
+        "NV.C12.B_step",
+        "NV.C12.B_run",
+        "NV.C12.blocker_pending",
+        "NV.C12.eligible_start",
+        "NV.C12.complete_hasCmd",
+        "NV.C12.LiveOK_runOps",
+        "NV.C12.LiveOK_cmdLoop",
+        "NV.C12.LiveOK_processIO",
+        "NV.C12.accept_interactive",
+        "NV.C12.newSlot_free",
+        "NV.C12.cpl_fold",
+        "NV.C12.inLoop_fold",
+        "NV.C12.cmdLoop_inLoop",
     ]
     witness_theorems = []
     consts = [("hasCmdTurn", "HAS_CMD_TURN"), ("cmdInBuf", "CMD_IN_BUF"), ("singleChar", "SINGLE_CHAR"),
@@ -287,6 +303,25 @@ class C12(Prop):
            ["cycle"] * 5)
         mk("error-sparse-last-slot", ["script u49 =x err", "script u1 =x err"] + ["conn"] * 49 + ["cycle"] * 50 +
            ["close u%d" % i for i in range(2, 49)] + ["cycle", "send u49 x~a~x~b~", "send u1 a~x~b~"] + ["cycle"] * 4)
+        # several users leave by their own command inside ONE command loop while the users served after them hold
+        # commands and nobody is idle (the loop bound must not shrink with the table): quit = destruct, drop = remove_interactive
+        def quitters(n, quit, how="kick", park=None, idle=0):
+            sc = ["script u%d =q %s,u%d" % (q, how, q) for q in quit]
+            pre = conns(n + idle)
+            if park:
+                pre += ["send u%d t~" % park, "cycle"]
+            return sc + pre + ["send u%d %s" % (i, "q~z~" if i in quit else "a~b~") for i in range(1, n + 1)] + ["cycle"] * 4
+        mk("two-quit-one-waits", quitters(3, (3, 2)))
+        mk("two-drop-one-waits", quitters(3, (3, 2), "drop"))
+        mk("two-quit-two-wait", quitters(4, (4, 3)))
+        mk("three-quit-two-wait-parked", quitters(5, (2, 1, 5), park=3))
+        mk("quit-mid-table-parked", quitters(6, (4, 3, 2), park=5))
+        mk("two-quit-one-waits-one-idle", quitters(3, (3, 2), idle=1))
+        mk("killer-and-quitters", ["script u5 =q kick,u4;kick,u5", "script u3 =q drop,u3"] + conns(5) +
+           ["send u5 q~", "send u4 a~", "send u3 q~", "send u2 a~b~", "send u1 a~b~"] + ["cycle"] * 4)
+        mk("quit-at-table-edge", ["script u50 =q kick,u50", "script u49 =q kick,u49"] + ["conn"] * 51 + ["cycle"] * 52 +
+           ["close u%d" % i for i in range(2, 49)] + ["cycle", "send u51 q~", "send u50 q~", "send u49 q~", "send u1 a~b~"] +
+           ["cycle"] * 4)
         mk("kick-waiting-user", ["script u3 =k kick,u1;kick,u2", "script u2 =s kick,u2;gc"] + conns(3) +
            ["send u1 a~b~", "send u2 a~b~", "send u3 k~c~", "cycle", "cycle", "conn", "cycle", "send u4 s~", "cycle", "cycle"])
         mk("self-kick-and-drop", ["script u2 =s kick,u2;ecmd,u1,m1", "script u1 =d drop,u1;ecmd,u1,m1;gc", "script u1 =m1 it"] +
@@ -453,10 +488,42 @@ class C12(Prop):
             body += ["conn", "cycle", "send u%d q~" % (n + 1), "cycle", "cycle"]
         return E.Case(cid, lines + body + ["run"], {"origin": "generated-sparse"})
 
+    def gen_quitters(self, rng, cid):
+        """everybody holds a command in the same cycle; two or more users leave by their own command (destruct /
+        remove_interactive) or are removed by somebody else's; cursor parked at a random slot; few or no idle users"""
+        n = rng.range(3, 9) if not rng.chance(1, 8) else rng.range(48, 52)
+        users = list(range(1, n + 1))
+        active = users if n < 20 else rng.shuffle(users)[:rng.range(3, 8)]
+        nq = rng.range(2, max(2, len(active) - 1))
+        quit = rng.shuffle(list(active))[:nq]
+        lines = []
+        for q in quit:
+            k = rng.weighted([("kick", 5), ("drop", 3), ("other", 2)])
+            if k == "other":
+                lines.append("script u%d =q kick,u%d;kick,u%d" % (q, rng.choice(quit), q))
+            else:
+                lines.append("script u%d =q %s,u%d" % (q, k, q))
+        body = ["conn"] * n + ["cycle"] * (n + 1)
+        idle = rng.weighted([(0, 6), (1, 2), (2, 1)])
+        body += ["conn", "cycle"] * idle
+        if n >= 20:
+            body += ["close u%d" % i for i in users if i not in active and rng.chance(4, 5)] + ["cycle"]
+        for _ in range(rng.range(0, 2)):                       # park the cursor
+            body += ["send u%d t~" % rng.choice(active), "cycle"]
+        for u in active:
+            body.append("send u%d %s" % (u, ("q~" + "".join(rng.choice(WORDS[:6]) + "~" for _ in range(rng.range(0, 2)))) if u in quit
+                                         else "".join(rng.choice(WORDS[:6]) + "~" for _ in range(rng.range(1, 3)))))
+        body += ["cycle"] * rng.range(2, 5)
+        if rng.chance(1, 3):
+            body += ["conn", "cycle", "send u%d a~" % (n + idle + 1), "cycle", "cycle"]
+        return E.Case(cid, lines + body + ["run"], {"origin": "generated-quitters"})
+
     def generate(self, rng, n, tier):
         out = []
         for i in range(n):
-            if i % 5 == 4:
+            if (tier == "search" and i < 150) or i % 7 == 6:
+                out.append(self.gen_quitters(rng, "g%d" % i))
+            elif i % 5 == 4:
                 out.append(self.gen_sparse(rng, "g%d" % i))
             else:
                 out.append(self.gen_case(rng, "g%d" % i, tier))
@@ -471,7 +538,7 @@ class C12(Prop):
         nconn = sum(1 for l in lines if l == "conn")
         for i in range(n):
             if i % 3 == 2 or nconn == 0:
-                out.append(self.gen_sparse(rng, "m%d" % i))
+                out.append(self.gen_sparse(rng, "m%d" % i) if i % 2 else self.gen_quitters(rng, "m%d" % i))
                 continue
             ls = list(lines)
             for _ in range(rng.range(1, 4)):
